@@ -14,6 +14,14 @@
 (*   nn     number of challenges issued on the connection so far (nonce k of c = <<c,k>>)      *)
 (*   idx    ClientRegistry.clientIDMap (by connection id; "none" = no entry)                   *)
 (*   ord    registered control connections by ControlConnection.CreatedAt (oldest first)        *)
+(*   blackP addresses whose blacklist entry is persisted in the shared storage (black = the     *)
+(*          IPManager's in-memory list; Reload = a restarted server / another node re-creates   *)
+(*          the IPManager from the storage)                                                     *)
+(*   corrupt clients whose stored secret cannot be decrypted by this server (master key rotated,*)
+(*          damaged record): no response can be verified against it                             *)
+(*   cloud  "down": the runtime-state calls of the session layer into cloud control fail        *)
+(*   kq/kx  a KickOldConnection(kx, ..) whose locked section is done and whose I/O (kick        *)
+(*          command to connection kq, closing its stream) is still outstanding                  *)
 (*   issued clients that exist   expired  clients whose stored expiry date lies in the past     *)
 (*   bound  clients bound to a user (Service.BindToUser; binding clears the expiry date, a      *)
 (*          later ExtendExpiration can set one again: expiry applies to both kinds of client)   *)
@@ -32,6 +40,8 @@ CONSTANTS Conn,      \* sequence of connection names, accepted in this order, e.
           MaxCtl,    \* ClientRegistry.maxConnections (SessionConfig.MaxControlConnections); 0 = no cap
           Faults,    \* seeded design faults (always {} for the real code), used to show the model tells them apart:
                      \*   "splitUpdateAuth"  UpdateAuth = lookup under the read lock, then index write under the write lock
+                     \*   "closeNeedsCloud"  RemoveControlConnection keeps the registry entry when the cloud-control notification fails
+                     \*   "kickSendFirst"    KickOldConnection = lookup, send the kick, then delete index entry and connection unconditionally
           Ops,       \* enabled operation kinds
           Types,     \* connection types used in handshake messages
           PreAccept, \* TRUE: all connections are accepted in the initial state
@@ -98,7 +108,7 @@ Handler(s0, c, m) ==
     [s |-> [s EXCEPT !.nn[c] = @ + 1, !.pend[c] = s.nn[c] + 1], out |-> "chal", id |-> m.id]
   ELSE \* P2
     IF s.pend[c] = 0 THEN [s |-> RecFail(s, c), out |-> "fail", id |-> m.id]
-    ELSE IF m.resp = "ValidLatest" /\ s.pend[c] = s.nn[c]
+    ELSE IF m.resp = "ValidLatest" /\ s.pend[c] = s.nn[c] /\ m.id \notin s.corrupt
       THEN [s |-> [s EXCEPT !.pend[c] = 0, !.auth[c] = m.id, !.fails[c] = 0], out |-> "ok", id |-> m.id]
       ELSE [s |-> RecFail([s EXCEPT !.pend[c] = 0], c), out |-> "fail", id |-> m.id]
 
@@ -117,7 +127,9 @@ UpdAuth(s, c) ==
        IN [s1 EXCEPT !.idx[X] = c]
 
 \* SessionManager.CloseConnection (adapter.cleanupConnection closes the socket as well)
-CloseConn(s, c) == LET s1 == [s EXCEPT !.sess = @ \ {c}, !.tcl = @ \cup {c}] IN Remove(s1, c)
+\* RemoveControlConnection removes the registry entry whatever the cloud-control notification returns
+CloseConn(s, c) == LET s1 == [s EXCEPT !.sess = @ \ {c}, !.tcl = @ \cup {c}] IN
+                   IF "closeNeedsCloud" \in Faults /\ s.cloud = "down" /\ AuthOf(s, c) # None THEN s1 ELSE Remove(s1, c)
 
 \* ClientRegistry.KickOldConnection(X, newConnID)
 KickOp(s, X, n) == LET old == s.idx[X] IN
@@ -148,12 +160,13 @@ MsgSeq(s, c, m) == LET h == Handler(s, c, m) IN
 RespsFor(s, c, X) == {"Garbage"} \cup (IF X \in s.issued /\ s.nn[c] > 0 THEN {"ValidLatest"} ELSE {})
                                \cup (IF X \in s.issued /\ s.nn[c] > 1 THEN {"ValidStale"} ELSE {})
                                \cup (IF s.nn[c] > 0 /\ s.issued \ {X} # {} THEN {"ForeignKey"} ELSE {})
+                               \cup (IF s.nn[c] > 0 /\ "Corrupt" \in Ops THEN {"EmptyKey"} ELSE {})   \* HMAC under the empty key
 Msgs(s, c) ==
      {[k |-> "FC", id |-> None, resp |-> None, type |-> t] : t \in Types}
   \cup {[k |-> "P1", id |-> X, resp |-> None, type |-> t] : X \in ClientS, t \in Types}
   \cup UNION {{[k |-> "P2", id |-> X, resp |-> r, type |-> t] : r \in RespsFor(s, c, X), t \in Types} : X \in ClientS}
 
-MsgEnabled(s, c, m) == /\ c \in s.sess /\ c \notin s.tcl
+MsgEnabled(s, c, m) == /\ c \in s.sess /\ c \notin s.tcl /\ c # s.kq
                        /\ m.k = "FC" => Cardinality(s.issued) < Len(Client)
                        /\ m.k = "P1" => s.nn[c] < MaxNonce
 
@@ -224,7 +237,7 @@ LoginSeq(s, c, X, t) ==
   IN IF a.out = "chal" THEN b ELSE a
 
 Login(c, X, ty) ==
-  /\ "Login" \in Ops /\ ~Split /\ Go /\ c \in st.sess /\ c \notin st.tcl /\ X \in st.issued /\ st.nn[c] < MaxNonce
+  /\ "Login" \in Ops /\ ~Split /\ Go /\ c \in st.sess /\ c \notin st.tcl /\ c # st.kq /\ X \in st.issued /\ st.nn[c] < MaxNonce
   /\ LET r == LoginSeq(st, c, X, ty)
          t == ReapAll(r.s)
      IN /\ st' = t
@@ -235,7 +248,7 @@ Login(c, X, ty) ==
   /\ UNCHANGED <<pc, used, gv>>
 
 FirstLogin(c, ty) ==
-  /\ "FirstLogin" \in Ops /\ ~Split /\ Go /\ c \in st.sess /\ c \notin st.tcl /\ Cardinality(st.issued) < Len(Client)
+  /\ "FirstLogin" \in Ops /\ ~Split /\ Go /\ c \in st.sess /\ c \notin st.tcl /\ c # st.kq /\ Cardinality(st.issued) < Len(Client)
   /\ LET r == MsgSeq(st, c, [k |-> "FC", id |-> None, resp |-> None, type |-> ty])
          t == ReapAll(r.s)
      IN /\ st' = t
@@ -249,7 +262,7 @@ FirstLogin(c, ty) ==
 \* connection is now a registered, unauthenticated control connection (and a failure is recorded
 \* for its address; one knock per connection keeps the protector's ban out of the C07 graphs).
 Knock(c) ==
-  /\ "Knock" \in Ops /\ ~Split /\ Go /\ c \in st.sess /\ c \notin st.tcl /\ st.fails[c] = 0
+  /\ "Knock" \in Ops /\ ~Split /\ Go /\ c \in st.sess /\ c \notin st.tcl /\ c # st.kq /\ st.fails[c] = 0
   /\ LET r == MsgSeq(st, c, [k |-> "P1", id |-> "nobody", resp |-> None, type |-> "control"])
          t == ReapAll(r.s)
      IN /\ st' = t
@@ -292,33 +305,68 @@ SUpd(c) == /\ Split /\ "splitUpdateAuth" \notin Faults /\ pc[c] = "upd"
 SReap == /\ Split /\ ~Quiescent(st) /\ st' = ReapAll(st) /\ UNCHANGED <<pc, proved, ctl, used, gv, dev, hist>>
 
 Close(c) == /\ "Close" \in Ops /\ TLCGet("level") <= MaxLevel /\ pc[c] = "idle" /\ (~Split => Idle)
-            /\ c \in st.sess /\ c \notin st.tcl
+            /\ c \in st.sess /\ c \notin st.tcl /\ c # st.kq
             /\ LET t == CloseConn(st, c) IN st' = t /\ Record([op |-> "Close", c |-> c], t)
             /\ UNCHANGED <<pc, proved, ctl, used, gv, dev>>
 
-Kick(X, n) == /\ "Kick" \in Ops /\ TLCGet("level") <= MaxLevel /\ (~Split => Idle) /\ X \in st.issued
+Kick(X, n) == /\ "Kick" \in Ops /\ TLCGet("level") <= MaxLevel /\ (~Split => Idle) /\ X \in st.issued /\ st.kq = None
               /\ LET t == IF Split THEN KickOp(st, X, n) ELSE ReapAll(KickOp(st, X, n))
                  IN st' = t /\ Record([op |-> "Kick", id |-> X, new |-> n], t)
               /\ UNCHANGED <<pc, proved, ctl, used, gv, dev>>
 
-Heartbeat(c) == /\ "Heartbeat" \in Ops /\ Go /\ c \in st.sess /\ c \notin st.tcl
+Heartbeat(c) == /\ "Heartbeat" \in Ops /\ Go /\ c \in st.sess /\ c \notin st.tcl /\ c # st.kq
                 /\ st' = st /\ Record([op |-> "Heartbeat", c |-> c], st)
                 /\ UNCHANGED <<pc, proved, ctl, used, gv, dev>>
 
-Tick(S) == /\ "Tick" \in Ops /\ TLCGet("level") <= MaxLevel /\ (~Split => Idle) /\ st.reg # {} /\ S \subseteq st.reg
+Tick(S) == /\ "Tick" \in Ops /\ TLCGet("level") <= MaxLevel /\ (~Split => Idle) /\ st.kq = None /\ st.reg # {} /\ S \subseteq st.reg
            /\ LET t == Sweep(st, S) IN st' = t /\ Record([op |-> "Tick", keep |-> S], t)
            /\ UNCHANGED <<pc, proved, ctl, used, gv, dev>>
 
-Unregister(c) == /\ "Unregister" \in Ops /\ Go /\ c \in st.reg
+Unregister(c) == /\ "Unregister" \in Ops /\ Go /\ c \in st.reg /\ c # st.kq
                  /\ LET t == Unreg(st, c) IN st' = t /\ Record([op |-> "Unregister", c |-> c], t)
                  /\ UNCHANGED <<pc, proved, ctl, used, gv, dev>>
 
 Ban(c) == /\ "Ban" \in Ops /\ Go /\ c \in st.sess /\ c \notin st.banned
           /\ LET t == [st EXCEPT !.banned = @ \cup {c}] IN st' = t /\ Record([op |-> "Ban", c |-> c], t)
           /\ UNCHANGED <<pc, proved, ctl, used, gv, dev>>
-Blacklist(c) == /\ "Blacklist" \in Ops /\ Go /\ c \in st.sess /\ c \notin st.black
-                /\ LET t == [st EXCEPT !.black = @ \cup {c}] IN st' = t /\ Record([op |-> "Blacklist", c |-> c], t)
-                /\ UNCHANGED <<pc, proved, ctl, used, gv, dev>>
+\* IPManager.AddToBlacklist: in-memory list and shared storage. how = "temp" (a duration that does
+\* not run out within a behaviour), "perm" (duration 0 = never expires), "cidr" (permanent, as a range)
+Blacklist(c, how) == /\ "Blacklist" \in Ops /\ Go /\ c \in st.sess /\ c \notin st.black
+                     /\ LET t == [st EXCEPT !.black = @ \cup {c}, !.blackP = @ \cup {c}]
+                        IN st' = t /\ Record([op |-> "Blacklist", c |-> c, how |-> how], t)
+                     /\ UNCHANGED <<pc, proved, ctl, used, gv, dev>>
+\* the IPManager is re-created on the same storage (restart / another node): every persisted entry is in force again
+Reload == /\ "Reload" \in Ops /\ Go /\ st.blackP # {}
+          /\ LET t == [st EXCEPT !.black = st.blackP] IN st' = t /\ Record([op |-> "Reload"], t)
+          /\ UNCHANGED <<pc, proved, ctl, used, gv, dev>>
+\* the stored secret of X becomes undecryptable for this server
+Corrupt(X) == /\ "Corrupt" \in Ops /\ Go /\ X \in st.issued /\ X \notin st.corrupt
+              /\ LET t == [st EXCEPT !.corrupt = @ \cup {X}] IN st' = t /\ Record([op |-> "Corrupt", id |-> X], t)
+              /\ UNCHANGED <<pc, proved, ctl, used, gv, dev>>
+\* cloud-control outage begins / ends (fault point of close, sweep and heartbeat)
+Cloud(to) == /\ "Cloud" \in Ops /\ Go /\ st.cloud # to
+             /\ LET t == [st EXCEPT !.cloud = to] IN st' = t /\ Record([op |-> "Cloud", to |-> to], t)
+             /\ UNCHANGED <<pc, proved, ctl, used, gv, dev>>
+
+\* KickOldConnection as the two parts it consists of: the locked section (look the old connection up
+\* and take it out of both maps) and, after the lock is released, the I/O (deliver the kick command
+\* to the old peer - slow if it is unresponsive -, close its stream). Anything may happen in between.
+KickBegin(X, n) ==
+  /\ "KickBegin" \in Ops /\ ~Split /\ Go /\ X \in st.issued /\ st.kq = None
+  /\ LET old == st.idx[X]
+         t == IF old = None \/ old = n THEN st
+              ELSE IF "kickSendFirst" \in Faults THEN [st EXCEPT !.kq = old, !.kx = X]
+              ELSE [st EXCEPT !.idx = DropIdx(st, old), !.reg = @ \ {old}, !.kq = old, !.kx = X]
+     IN st' = t /\ Record([op |-> "KickBegin", id |-> X, new |-> n, kicking |-> t.kq], t)
+  /\ UNCHANGED <<pc, proved, ctl, used, gv, dev>>
+KickEnd ==
+  /\ "KickBegin" \in Ops /\ ~Split /\ Go /\ st.kq # None
+  /\ LET s1 == IF "kickSendFirst" \in Faults
+               THEN [st EXCEPT !.idx[st.kx] = None, !.reg = @ \ {st.kq}, !.tcl = @ \cup {st.kq}]
+               ELSE [st EXCEPT !.tcl = @ \cup {st.kq}]
+         t == ReapAll([s1 EXCEPT !.kq = None, !.kx = None])
+     IN st' = t /\ Record([op |-> "KickEnd"], t)
+  /\ UNCHANGED <<pc, proved, ctl, used, gv, dev>>
 Expire(X) == /\ "Expire" \in Ops /\ Go /\ X \in st.issued /\ X \notin st.expired
              /\ LET t == [st EXCEPT !.expired = @ \cup {X}] IN st' = t /\ Record([op |-> "Expire", id |-> X], t)
              /\ UNCHANGED <<pc, proved, ctl, used, gv, dev>>
@@ -330,7 +378,8 @@ Init ==
   /\ st = [acc |-> IF PreAccept THEN ConnS ELSE {}, sess |-> IF PreAccept THEN ConnS ELSE {},
            tcl |-> {}, reg |-> {},
            auth |-> [c \in ConnS |-> None], pend |-> [c \in ConnS |-> 0], nn |-> [c \in ConnS |-> 0],
-           idx |-> [X \in ClientS |-> None], issued |-> {}, expired |-> {}, bound |-> {}, banned |-> {}, black |-> {},
+           idx |-> [X \in ClientS |-> None], issued |-> {}, expired |-> {}, bound |-> {}, banned |-> {}, black |-> {}, blackP |-> {},
+           corrupt |-> {}, cloud |-> "up", kq |-> None, kx |-> None,
            fails |-> [c \in ConnS |-> 0], ord |-> <<>>]
   /\ pc = [c \in ConnS |-> "idle"]
   /\ proved = [c \in ConnS |-> {}] /\ ctl = {} /\ used = {} /\ gv = {} /\ dev = {} /\ hist = <<>>
@@ -344,9 +393,11 @@ Next == \/ Accept
                             \/ \E X \in ClientS \cap st.issued, ty \in Types :
                                   st.nn[c] < MaxNonce /\ SHandler(c, [k |-> "LG", id |-> X, resp |-> None, type |-> ty])
                             \/ SEvict(c) \/ SUpd(c) \/ SUpdLookup(c) \/ SUpdWrite(c)
-                            \/ Close(c) \/ Heartbeat(c) \/ Unregister(c) \/ Ban(c) \/ Blacklist(c)
+                            \/ Close(c) \/ Heartbeat(c) \/ Unregister(c) \/ Ban(c)
+                            \/ \E how \in {"temp", "perm", "cidr"} : Blacklist(c, how)
         \/ SReap
-        \/ \E X \in ClientS : Expire(X) \/ Bind(X) \/ \E n \in ConnS \cup {None} : Kick(X, n)
+        \/ \E X \in ClientS : Expire(X) \/ Bind(X) \/ Corrupt(X) \/ \E n \in ConnS \cup {None} : (Kick(X, n) \/ KickBegin(X, n))
+        \/ KickEnd \/ Reload \/ Cloud("down") \/ Cloud("up")
         \/ \E S \in SUBSET ConnS : Tick(S)
 Spec == Init /\ [][Next]_vars
 
@@ -368,7 +419,7 @@ NoP1Install == "p1InstallsAuthenticatedConn" \notin dev
 ProvenIssued == \A c \in ConnS : proved[c] \subseteq st.issued
 
 \* ---- C07 (judged at quiescent states: all read loops of closed transports have ended)
-Stable == Idle /\ Quiescent(st)
+Stable == Idle /\ Quiescent(st) /\ st.kq = None
 LookupSound == \A X \in ClientS : LET c == st.idx[X] IN
                  c # None => (c \in st.reg /\ c \in st.sess /\ st.auth[c] = X /\ c \notin st.tcl)
 OnePerClient == \A X \in ClientS : Cardinality({c \in st.reg : st.auth[c] = X /\ (c \in ctl \/ st.idx[X] = c)}) <= 1
